@@ -270,7 +270,7 @@ func main() {
 	sort.Slice(methods, func(i, j int) bool { return methods[i][0]+methods[i][1] < methods[j][0]+methods[j][1] })
 
 	// ante chain
-	var decorators []string
+	var decorators, ethSteps []string
 	{
 		fn := filepath.Join(repo, "ante", "handler_options.go")
 		f, err := parser.ParseFile(fset, fn, nil, 0)
@@ -305,6 +305,34 @@ func main() {
 		}
 		if len(decorators) == 0 {
 			die("newCosmosAnteHandler / ChainAnteDecorators not found in ante/handler_options.go")
+		}
+		for _, d := range f.Decls {
+			fd, ok := d.(*ast.FuncDecl)
+			if !ok || fd.Name.Name != "newEthAnteHandler" {
+				continue
+			}
+			var trailing []string
+			ast.Inspect(fd.Body, func(n ast.Node) bool {
+				switch x := n.(type) {
+				case *ast.CompositeLit:
+					if strings.Contains(exprStr(x.Type), "AnteDecorator") {
+						for _, el := range x.Elts {
+							if c, ok := el.(*ast.CallExpr); ok {
+								trailing = append(trailing, exprStr(c.Fun))
+							}
+						}
+						return false
+					}
+				case *ast.CallExpr:
+					if sel, ok := x.Fun.(*ast.SelectorExpr); ok {
+						if id, ok := sel.X.(*ast.Ident); ok && id.Name == "ethante" && sel.Sel.Name != "NewCachedAccountGetter" {
+							ethSteps = append(ethSteps, "ethante."+sel.Sel.Name)
+						}
+					}
+				}
+				return true
+			})
+			ethSteps = append(ethSteps, trailing...)
 		}
 	}
 
@@ -355,6 +383,14 @@ func main() {
 	sb.WriteString("].\n\n")
 	sb.WriteString("Definition gen_ante_decorators : list string :=\n [")
 	for i, d := range decorators {
+		if i > 0 {
+			sb.WriteString("; ")
+		}
+		sb.WriteString(coqStr(d))
+	}
+	sb.WriteString("].\n\n")
+	sb.WriteString("Definition gen_eth_ante_steps : list string :=\n [")
+	for i, d := range ethSteps {
 		if i > 0 {
 			sb.WriteString("; ")
 		}
